@@ -5,3 +5,9 @@ COMMON_NOTE = ("Trusted base: bnum's digits()/from_digits()/to_bits()/from_bits(
 prop("C01", "property-based testing (proptest) against an exact reference-integer oracle; exhaustive at 8 bits",
      "Generated search over structured W-bit operand patterns (carry chains across digit boundaries, overflow by one, MIN/MAX edges) for all 72 types; every overflow mode of add/sub/neg/abs/carrying/borrowing/abs_diff/midpoint compared with exact arithmetic; the 8-bit configuration is enumerated completely. Exploration is the right level: the property is a pure-function equality with a cheap exact oracle, so millions of adversarially structured cases per run are affordable.",
      COMMON_NOTE)
+prop("C02", "property-based testing (proptest) with edge-of-overflow and positional operand construction against an exact reference product; exhaustive at 8 bits",
+     "Generated search for all 72 types: structured operands, products constructed to overflow by exactly one unit / one bit, single-digit operands placed around the i+j = N column boundary; overflowing/checked/wrapping/saturating/strict/unchecked mul, widening_mul, carrying_mul and a chained 2x2-word product are compared with the exact product. Exploration is the right level: cheap exact oracle, adversarial construction reaches the thin overflow edge directly.",
+     COMMON_NOTE)
+prop("C03", "property-based testing (proptest) with backwards-constructed dividends and Algorithm-D stress families against a shift-subtract reference division; exhaustive at 8 bits",
+     "Generated search for all 72 types over divisor shapes (every significant-digit count and normalisation shift), n = q*d + r constructions, Knuth-D stress families scaled to each digit base (a reference-side shadow run counts add-back / qhat corrections: all four digit sizes reach add-back in every run), all sign combinations, MIN/-1 and zero divisors; all division/remainder forms and rounding variants compared with an independent reference and re-derived via n = q*d + r.",
+     COMMON_NOTE + " The shadow Algorithm D run is used for labelling only.")
